@@ -702,7 +702,7 @@ def _equations_stage3_index_at(exprs_in, exprs_out, invocation, is_update):
     if marked_coord_axis.value is not None and marked_coord_axis.value != len(marked_axes_in):
         raise SemanticError(
             invocation=invocation,
-            pos=invocation.indicator.get_pos_for_axisnames(exprs_in + exprs_out, [marked_coord_axis.name] + [expr.name for expr in marked_axes_in]),
+            pos=invocation.indicator.get_pos_for_axisnames(exprs_in + exprs_out, [axis.name for axis in coords_axes] + [expr.name for expr in marked_axes_in]),
             message=(
                 f"The sum of the lengths of marked coordinate axes ({marked_coord_axis.value}) must match the number of marked axes "
                 f"in the first input expression ({len(marked_axes_in)}).\n%EXPR%"
